@@ -2103,19 +2103,21 @@ func checkInitialSteps(rc *RunCtx, in *minInst, r *minRun) *Violation {
 		return nil
 	}
 	clamp := func(v float64) float64 { return math.Max(lo, math.Min(v, hi)) }
+	// (math.Hypot does not underflow: default-settings runs go on until
+	// gradients of 1e-160 and displacements of 1e-163, whose squares are 0)
 	norm2 := func(v []float64) float64 {
 		var s float64
 		for _, x := range v {
-			s += x * x
+			s = math.Hypot(s, x)
 		}
-		return math.Sqrt(s)
+		return s
 	}
 	dist := func(a, b []float64) float64 {
 		var s float64
 		for i := range a {
-			s += (a[i] - b[i]) * (a[i] - b[i])
+			s = math.Hypot(s, a[i]-b[i])
 		}
-		return math.Sqrt(s)
+		return s
 	}
 	rc.oracle("initial-step-as-advertised")
 	var prevMajor *recEntry
@@ -2231,9 +2233,13 @@ func checkLinesearchSteps(rc *RunCtx, in *minInst, r *minRun) *Violation {
 			tol0 += math.Abs(prev.g[j]) * ulp
 			tol1 += math.Abs(e.g[j]) * ulp
 		}
-		tol0 += 16 * eps * math.Abs(p0)
-		tol1 += 16 * eps * math.Abs(p1)
-		ftol := 16 * eps * (math.Abs(prev.f) + math.Abs(e.f))
+		// (the absolute terms cover underflow: products of numbers around
+		// 1e-160 are denormal or zero, and relative bounds mean nothing
+		// for them)
+		const underflow = 1e-300
+		tol0 += 16*eps*math.Abs(p0) + underflow
+		tol1 += 16*eps*math.Abs(p1) + underflow
+		ftol := 16*eps*(math.Abs(prev.f)+math.Abs(e.f)) + underflow
 		if math.IsNaN(p0+p1+prev.f+e.f) || math.IsInf(p0+p1+prev.f+e.f, 0) {
 			prev = e
 			continue
